@@ -367,10 +367,14 @@ where
     let repc = RefCell::new(rep);
     let mut i: u64 = 0;
     let mut done: u64 = 0;
-    let w = ctx.workers.max(1) as u64;
+    // workers are started with a cycle of configurations (NV_ENV_CONFIGS of them, worker i has configuration i mod that):
+    // the cases are sliced over the workers of ONE configuration, every configuration sees them all
+    let groups: u64 = std::env::var("NV_ENV_CONFIGS").ok().and_then(|s| s.parse().ok()).unwrap_or(1).max(1);
+    let w = (ctx.workers.max(1) as u64 / groups).max(1);
+    let me = ctx.worker as u64 / groups;
     let mut clean = true;
     for case in cases {
-        let mine = i % w == ctx.worker as u64;
+        let mine = me < w && i % w == me;
         i += 1;
         if !mine {
             continue;
